@@ -109,7 +109,7 @@ REQUIRED_CLASSES = {
     'scale:backup-NONE': 1, 'scale:backup-ALL': 1, 'scale:backup-ONCE': 1, 'scale:backup-TWICE': 1,
     'scale:backup-LEFT': 1, 'scale:backup-RIGHT': 1, 'scale:offscale-asserted': 1,
     'las:format-matches-a-curve': 1,
-    'adapter:svg-checked': 1, 'adapter:has-absent-gap': 1, 'adapter:all-absent-curve': 1, 'adapter:huge-values': 1,
+    'adapter:svg-checked': 1, 'adapter:x-interval-in-other-units': 1, 'adapter:has-absent-gap': 1, 'adapter:all-absent-curve': 1, 'adapter:huge-values': 1,
     'adapter:tiny-values': 1, 'adapter:spikes': 1, 'adapter:nonpositive-on-log-curve': 1, 'adapter:absent-output-checked': 1,
     'lisplot:svg-checked': 1, 'lisplot:xml-format': 1, 'lisplot:internal-film-pres': 1, 'lisplot:polyline-points>=1000': 1,
     'svgcheck:depth-mapping-confirmed(>=50%-of-vertices-at-sample-depths)': 1,
@@ -1033,7 +1033,14 @@ def check_adapter_plot(case, cc):
                 out = os.path.join(d, 'case_%s.svg' % u)
                 try:
                     plot = Plot.PlotReadXML(u, case['scale'])
-                    curves, npoints = plot.plotLogPassLAS(holder, holder.x_axis_start, holder.x_axis_stop, u, out, frameStep=1,
+                    x_from, x_to = holder.x_axis_start, holder.x_axis_stop
+                    if len(model['data']) % 2 == 0:
+                        # the interval to plot is given as engineering values: here in other units than the X axis of the
+                        # data (metres for a log in feet and the reverse), which denotes the same interval
+                        other = b'FEET' if holder.x_axis_units == b'M   ' else b'M   '
+                        x_from, x_to = x_from.newEngValInUnits(other), x_to.newEngValInUnits(other)
+                        cc.cls('adapter:x-interval-in-other-units')
+                    curves, npoints = plot.plotLogPassLAS(holder, x_from, x_to, u, out, frameStep=1,
                                                           title='Plot: generated FILM ID=%s' % u, plotHeader=False)
                 except Exception as err:  # noqa
                     cc.unexpected(err)
